@@ -28,7 +28,8 @@ LEVEL_TEXT = ("Lean 4 theorems over the model of every Configurator operation (w
               "quiet while held; the exception is proved as held_reload_by_weight_updates = finding S-C12-a), resources_unchanged_quiet; and over the "
               "controller's start-up / batch machine for batches of any length: startup_held, single_task_open, batch_no_reload_inside_and_drain (exactly "
               "one reload decision, after the last handler, = flagged), drain_reloads_if_changed; the 'only if' half is refuted by drain_reload_without_change "
-              "(finding S-C12-b).")
+              "(finding S-C12-b)."
+              ' Gate theorems: gate_not_closed_by_operation, gate_opened_only_by_enable_or_weights.')
 LEVEL_NOTE = "Assurance = weaker of (theorems about the model, correspondence of the model's reload/API/return decisions with the real code's trace, Spec replay of the real trace)."
 TECHNIQUE = "Lean 4 proof (trace theorems for all operation/fault sequences, batch-machine invariant) + model/implementation correspondence on recorded Manager-boundary traces"
 
